@@ -303,12 +303,21 @@ func runExecutorScenario(sc xScenario, idx int, rng *rand.Rand, watchdog time.Du
 
 func genExecutorScenario(rng *rand.Rand) xScenario {
 	sc := xScenario{Workers: []int{1, 2, 2, 3, 4, 8}[rng.Intn(6)]}
-	n := 2 + rng.Intn(9)
+	n := 2 + rng.Intn(11)
 	nkeys := 1 + rng.Intn(4)
 	readHeavy := rng.Intn(3) == 0
 	failing := rng.Intn(100) < 35
+	sameOwner := nkeys >= 2 && rng.Intn(3) == 0 // first task owns every key: later tasks mix reads and writes of one owner
 	for i := 0; i < n; i++ {
 		m := map[string]string{}
+		if sameOwner && i == 0 {
+			for k := 1; k <= nkeys; k++ {
+				m[strconv.Itoa(k)] = "w"
+			}
+			sc.Keys = append(sc.Keys, m)
+			sc.Fails = append(sc.Fails, false)
+			continue
+		}
 		cnt := 1 + rng.Intn(minInt(3, nkeys))
 		for len(m) < cnt {
 			k := strconv.Itoa(1 + rng.Intn(nkeys))
@@ -355,6 +364,59 @@ func directedExecutorScenarios() []xScenario {
 	}
 }
 
+// Same-owner family: one task owns (writes) a pair of keys A and B; k pure readers of one of them are queued and held
+// on their gates; then a task T that reads one key of the pair and writes the other is queued and released.  T may run
+// only after all the readers of the key it writes finished.  Whether T meets its own reader entry before or after the
+// other readers while it registers depends on Go's map iteration order, so the shape is repeated for several pairs
+// per scenario and in several scenarios.
+func sameOwnerScenarios() []xScenario {
+	var out []xScenario
+	for v := 0; v < 10; v++ {
+		k := 2 + v%3      // readers per pair
+		pairs := 16 / (k + 2)
+		if pairs > 4 {
+			pairs = 4
+		}
+		sc := xScenario{Workers: 16, Label: fmt.Sprintf("same-owner-readers-then-read-write-task-%d", v)}
+		var owners, readers, ts []int
+		add := func(m map[string]string) int {
+			sc.Keys = append(sc.Keys, m)
+			sc.Fails = append(sc.Fails, false)
+			return len(sc.Keys)
+		}
+		for p := 0; p < pairs; p++ {
+			a, b := strconv.Itoa(2*p+1), strconv.Itoa(2*p+2)
+			if v%2 == 1 {
+				a, b = b, a
+			}
+			owners = append(owners, add(map[string]string{a: "w", b: []string{"w", "a", "all"}[v%3]}))
+			for r := 0; r < k; r++ {
+				readers = append(readers, add(map[string]string{b: "r"}))
+			}
+			ts = append(ts, add(map[string]string{a: "r", b: []string{"w", "aw", "a"}[(v/2)%3]}))
+		}
+		for range sc.Keys {
+			sc.Script = append(sc.Script, xStep{"run", 0})
+			if v >= 5 && len(sc.Script) == len(owners) { // some variants: owners finish while the rest is being queued
+				for _, o := range owners[:1] {
+					sc.Script = append(sc.Script, xStep{"gate", o})
+				}
+			}
+		}
+		for _, o := range owners {
+			sc.Script = append(sc.Script, xStep{"gate", o})
+		}
+		for _, t := range ts { // release the read+write tasks while the readers are still held
+			sc.Script = append(sc.Script, xStep{"gate", t})
+		}
+		for _, r := range readers {
+			sc.Script = append(sc.Script, xStep{"gate", r})
+		}
+		out = append(out, sc)
+	}
+	return out
+}
+
 func TestVerifExecutorRecord(t *testing.T) {
 	out := os.Getenv("VERIF_OUT")
 	if out == "" {
@@ -383,7 +445,7 @@ func TestVerifExecutorRecord(t *testing.T) {
 			t.Fatal(err)
 		}
 	}
-	directed := append(directedExecutorScenarios(), scripted...)
+	directed := append(append(directedExecutorScenarios(), sameOwnerScenarios()...), scripted...)
 	hangs := []int{}
 	written := 0
 	for i := 0; i < n; i++ {
